@@ -50,12 +50,7 @@ func runC18(c *Ctx) {
 		rl := c.method("sync", "RWMutex", "RLock")
 		c.whoMay("ServerPeer.mtxSubscribers.RLock", withArg(callTo(rl), 0, fieldAddrOf(mtx)), []string{"(*neutrino.ServerPeer).OnRead"}, 1)
 		// lock pairing over the whole root module
-		entry := map[string]map[lockKey]string{}
-		c.lockResults()
-		for fn, e := range c.lentry {
-			entry[c.nm(fn)] = e
-		}
-		c.pairing(c.P.Funcs, entry, 40)
+		c.rootPairing()
 	})
 
 	c.rule("C18.A1", "atomic-only fields: every access goes through sync/atomic", func() {
@@ -95,6 +90,130 @@ func runC18(c *Ctx) {
 			"(*neutrino.ChainService).Stop":          "calls SubscriptionManager.Stop",
 			"neutrino.NewChainService":               "constructs the manager",
 		}, 4)
+	})
+
+	c.rule("C18.R6", "results written by a response handler are read only after a nil verdict: in GetCFilter and GetBlock every read of the state the handler writes on a worker goroutine (the query object's targetFilter / headerIndex; the captured result variable of GetBlock), made after the request was handed to the work manager, lies behind `verdict == nil` of the receive from the channel Query returned (a nil verdict is sent after the worker's last result; an error verdict, e.g. at shutdown, is not ordered after the worker's writes)", func() {
+		for _, name := range []string{"(*neutrino.ChainService).GetCFilter", "(*neutrino.ChainService).GetBlock"} {
+			fn := c.fn(name)
+			isQuery := func(in ssa.Instruction) bool {
+				cc := ir.CallOf(in)
+				return cc != nil && cc.IsInvoke() && cc.Method.Name() == "Query" && cc.Method.Pkg() != nil && cc.Method.Pkg().Path() == ir.ModPath+"/query"
+			}
+			qs := find(fn, isQuery)
+			construct := c.nm(fn) + " | shared result state is read behind a nil verdict"
+			if len(qs) != 1 {
+				c.fail(construct, c.P.Pos(fn.Pos()), fmt.Sprintf("%d calls of the work manager's Query, 1 tabled", len(qs)))
+				continue
+			}
+			q := qs[0]
+			// the select that receives the verdict
+			var sel *ssa.Select
+			idx := -1
+			ir.Instrs(fn, func(in ssa.Instruction) {
+				s, ok := in.(*ssa.Select)
+				if !ok {
+					return
+				}
+				k := 2
+				for _, st := range s.States {
+					if st.Dir != types.RecvOnly {
+						continue
+					}
+					if ir.DerivesFrom(st.Chan, func(x ssa.Value) bool { return x == q.(ssa.Value) }) {
+						sel, idx = s, k
+					}
+					k++
+				}
+			})
+			var g guard
+			if sel != nil {
+				g = errNil("verdict received from Query's channel", []ssa.Instruction{sel}, idx)
+			} else {
+				// plain receive
+				var recvs []ssa.Instruction
+				ir.Instrs(fn, func(in ssa.Instruction) {
+					u, ok := in.(*ssa.UnOp)
+					if ok && u.Op == token.ARROW && ir.DerivesFrom(u.X, func(x ssa.Value) bool { return x == q.(ssa.Value) }) {
+						recvs = append(recvs, in)
+					}
+				})
+				g = errNil("verdict received from Query's channel", recvs, 0)
+			}
+			// shared cells
+			sharedField := map[*types.Var]bool{}
+			if strings.HasSuffix(name, "GetCFilter") {
+				hr := c.fn(fnCFResp)
+				ir.Instrs(hr, func(in ssa.Instruction) {
+					switch x := in.(type) {
+					case *ssa.Store:
+						if fa, ok := x.Addr.(*ssa.FieldAddr); ok && fa.X == ssa.Value(hr.Params[0]) {
+							sharedField[ir.FieldOfAddr(fa)] = true
+						}
+					case *ssa.Call:
+						if isBuiltin("delete")(x) {
+							ir.DerivesFrom(x.Call.Args[0], func(v ssa.Value) bool {
+								if fa, ok := v.(*ssa.FieldAddr); ok && fa.X == ssa.Value(hr.Params[0]) {
+									sharedField[ir.FieldOfAddr(fa)] = true
+								}
+								return false
+							})
+						}
+					case *ssa.MapUpdate:
+						ir.DerivesFrom(x.Map, func(v ssa.Value) bool {
+							if fa, ok := v.(*ssa.FieldAddr); ok && fa.X == ssa.Value(hr.Params[0]) {
+								sharedField[ir.FieldOfAddr(fa)] = true
+							}
+							return false
+						})
+					}
+				})
+			}
+			sharedCell := map[*ssa.Alloc]bool{}
+			for _, cl := range fn.AnonFuncs {
+				for i, fv := range cl.FreeVars {
+					written := false
+					ir.Instrs(cl, func(in ssa.Instruction) {
+						if st, ok := in.(*ssa.Store); ok && st.Addr == ssa.Value(fv) {
+							written = true
+						}
+					})
+					if !written {
+						continue
+					}
+					ir.Instrs(fn, func(in ssa.Instruction) {
+						if mc, ok := in.(*ssa.MakeClosure); ok && mc.Fn == ssa.Value(cl) && i < len(mc.Bindings) {
+							if al, ok := mc.Bindings[i].(*ssa.Alloc); ok {
+								sharedCell[al] = true
+							}
+						}
+					})
+				}
+			}
+			after := map[ssa.Instruction]bool{}
+			ir.WalkCtx(q.Block(), ir.IndexIn(q)+1, nil, nil, func(in ssa.Instruction) bool { after[in] = true; return true })
+			var reads []ssa.Instruction
+			ir.Instrs(fn, func(in ssa.Instruction) {
+				u, ok := in.(*ssa.UnOp)
+				if !ok || u.Op != token.MUL || !after[in] {
+					return
+				}
+				switch a := u.X.(type) {
+				case *ssa.FieldAddr:
+					if sharedField[ir.FieldOfAddr(a)] {
+						reads = append(reads, in)
+					}
+				case *ssa.Alloc:
+					if sharedCell[a] {
+						reads = append(reads, in)
+					}
+				}
+			})
+			if len(reads) == 0 {
+				c.fail(construct, c.P.Pos(fn.Pos()), "no read of the handler-written result state found after the Query call (the pinned tree reads targetFilter / foundBlock there)")
+				continue
+			}
+			c.guarded(fn, g, 1, "read of state the response handler writes", reads, 1, gDominate)
+		}
 	})
 
 	c.rule("C18.R5", "the subscription registry is not shared between goroutines: "+registryOwnerDoc, func() { c.registryOwner() })
@@ -360,4 +479,16 @@ func uniq(ss []string) []string {
 		}
 	}
 	return out
+}
+
+const rootPairingDoc = "lock pairing over the whole root module: every function reaches each of its exits with the lockset it was entered with (no mutex is still held when a goroutine's function returns), no double acquire, no release of an unheld lock"
+
+// rootPairing: see rootPairingDoc (part of C18.L1, and C17.P1).
+func (c *Ctx) rootPairing() {
+	entry := map[string]map[lockKey]string{}
+	c.lockResults()
+	for fn, e := range c.lentry {
+		entry[c.nm(fn)] = e
+	}
+	c.pairing(c.P.Funcs, entry, 40)
 }
